@@ -16,7 +16,7 @@ import (
 var cfg = vrt.Config{Preempt: coresim.InterComponent, NoLockPoints: true, FreeSwitchCost: true, Horizon: 30 * time.Minute}
 
 // how the run ends
-var endings = []string{"stop", "stop-fails", "task-dies", "destroy-force", "destroy-allow-running", "stop-then-start-stop", "stop-fails-then-destroy", "task-dies-then-destroy"}
+var endings = []string{"stop", "stop-fails", "task-dies", "destroy-force", "destroy-allow-running", "stop-then-start-stop", "stop-fails-then-destroy", "task-dies-then-destroy", "start-fails", "start-fails-then-destroy"}
 
 func scenario() *vrt.Scenario {
 	var w *coresim.World
@@ -35,6 +35,9 @@ func scenario() *vrt.Scenario {
 				if kind == "STOP" && failStop {
 					return coresim.ErrError
 				}
+				if kind == "START" && strings.HasPrefix(ending, "start-fails") {
+					return coresim.ErrError // the run exists already (number, start stamp, before_START hooks): the API's GO_ERROR has to close it
+				}
 				return coresim.OK
 			}
 			w = coresim.NewWorld(m)
@@ -42,7 +45,7 @@ func scenario() *vrt.Scenario {
 			if err != nil {
 				return
 			}
-			if _, err = w.Control(id, pb.ControlEnvironmentRequest_START_ACTIVITY); err != nil {
+			if _, err = w.Control(id, pb.ControlEnvironmentRequest_START_ACTIVITY); err != nil && !strings.HasPrefix(ending, "start-fails") {
 				return
 			}
 			settle := func() {
@@ -96,11 +99,19 @@ func scenario() *vrt.Scenario {
 			teardownSeen := map[uint32]int{}
 			for i, e := range w.RunEvents {
 				evs = append(evs, fmt.Sprintf("%d:%s/%s", e.RunNumber, e.Transition, e.TransitionStatus))
-				a := runs[e.RunNumber]
+				rn := e.RunNumber
+				if rn == 0 && len(order) > 0 && strings.HasPrefix(ending, "start-fails") {
+					// a START whose task transition fails gives the current run number back at once
+					// (transition_startactivity.go), so the GO_ERROR that closes that run publishes its events
+					// with run number 0: they are about the run opened last. (Whether events should carry the
+					// number is not part of the statement; the stamps are.)
+					rn = order[len(order)-1]
+				}
+				a := runs[rn]
 				if a == nil {
 					a = &acc{}
-					runs[e.RunNumber] = a
-					order = append(order, e.RunNumber)
+					runs[rn] = a
+					order = append(order, rn)
 				}
 				a.ts = append(a.ts, w.RunEventTS[i])
 				st := e.TransitionStatus.String()
